@@ -796,7 +796,7 @@ def over_limit_exceptions(rng, app, m):
 
 def map_url(li, m):
     p = [('service', 'WMS'), ('request', 'GetMap'), ('version', '1.1.1'), ('layers', li.name), ('styles', ''),
-         ('srs', 'EPSG:3857'), ('bbox', ','.join(fnum(v) for v in m['bbox'])), ('width', str(m['w'])), ('height', str(m['h'])),
+         ('srs', 'EPSG:3857'), ('bbox', m.get('bbox_text') or ','.join(fnum(v) for v in m['bbox'])), ('width', str(m['w'])), ('height', str(m['h'])),
          ('format', 'image/' + m['fmt'])]
     if m['tiled']:
         p.append(('tiled', 'true'))
@@ -864,12 +864,13 @@ def map_oracle(ctx, li, app, m, url, ans, summ):
         ctx.fail('map,cache-coordinate-outside-grid', 'cache operation on a coordinate outside the grid: %r for %s' % (outside[:3], url), rep)
     # WMS-C: a tiled=true request addresses a tile by its BBOX; a BBOX that is no tile of the advertised tile set (no
     # level has a tile of the grid whose four borders are within 1/10 of a request pixel) must be refused without cost
-    if m['tiled'] and (ans == 'Ok' or cost) and (app.srs_extent is None or _contains(app.srs_extent, m['bbox'])):
+    # (a BBOX outside the grid is answered with a blank image and no cache / upstream operation at all: not a tile served)
+    if m['tiled'] and summ and (app.srs_extent is None or _contains(app.srs_extent, m['bbox'])):
         near = addressed_tile(li, m)
         if near is None:
             ctx.fail('map,tiled,not-a-tile,' + ('answered' if ans == 'Ok' else 'effects'),
                      'tiled=true request whose BBOX %r (%dx%d) is not a tile of the tile set (nearest tile borders differ by %s request pixels) '
-                     'was answered %r with %r: %s' % ([float(v) for v in m['bbox']], m['w'], m['h'], nearest_tile_offsets(li, m), ans, cost[:3], url), rep)
+                     'was answered %r with %r: %s' % ([float(v) for v in m['bbox']], m['w'], m['h'], nearest_tile_offsets(li, m), ans, summ[:3], url), rep)
     if app.max_pixels and m['w'] * m['h'] > app.max_pixels[0] * app.max_pixels[1]:
         if ans == 'Ok':
             ctx.fail('map,pixel-limit,answered', 'request of %dx%d pixels answered although max_output_pixels is %r' % (m['w'], m['h'], app.max_pixels), rep)
@@ -1031,7 +1032,8 @@ def fixed_probes(ctx, col, rec, seq):
         grid name that only layer B offers (and the other way round), with addresses valid in A's grid, valid in B's
         grid and valid in both; a matrix set the layer does not link is refused without cost (model: UnknownLayer /
         UnknownMatrixSet; the cases also go through the correspondence).
-    (2) GetMap in EPSG:4326 on mercator caches with a max_tile_limit, around the limit (oracle only)."""
+    (2) GetMap in EPSG:4326 on mercator caches with a max_tile_limit, around the limit (oracle only).
+    (3) WMS-C tiled=true requests whose BBOX is 1/8 .. 8 pixels short of a tile at some of its borders."""
     try:
         app = App(ctx, [('pa', dict(PROBE_GRID_A), dict(PROBE_OPTS), False, False),
                         ('pb', dict(PROBE_GRID_B), dict(PROBE_OPTS), False, False),
@@ -1070,6 +1072,38 @@ def fixed_probes(ctx, col, rec, seq):
                     process_map_other_srs(ctx, app, rec, li, 'EPSG:4326', bbox, size)
     except Exception as e:  # noqa
         ctx.problem('harness', 'fixed probe (GetMap in another SRS around the tile limit) could not be run: %r' % (e,))
+    # (3) WMS-C: tiled=true requests aligned with a tile at some borders and 1/8 .. 8 request pixels short of it at the
+    #     others (every border combination that stays inside the one tile); exact grids go through the correspondence too
+    try:
+        app = App(ctx, [('ta', dict(PROBE_GRID_A), dict(PROBE_OPTS, queryable=False), False, False),
+                        ('tb', dict(PROBE_GRID_B), dict(PROBE_OPTS, queryable=False), False, False),
+                        ('tm', {'base': 'GLOBAL_MERCATOR', 'num_levels': 4}, dict(PROBE_OPTS, queryable=False), True, False)],
+                  None, None, info_formats=True)
+        prepare(app, col, seq)
+        sides = [(0, 0, 1, 1), (0, 0, 1, 0), (0, 0, 0, 1), (1, 1, 0, 0), (1, 0, 0, 0), (0, 1, 0, 0), (1, 1, 1, 1)]
+        for li in app.layers:
+            tw, th = li.grid.tile_size
+            for l in sorted({0, li.grid.levels - 1}) if li.exact else [1, 2]:
+                nx, ny = li.grid.grid_sizes[l]
+                for x, y in sorted({(0, 0), (nx - 1, ny - 1)}):
+                    if li.exact:
+                        rect = [Fraction(v) for v in li.gc.tile_rect(x, y, l)]
+                    else:
+                        rect = [Fraction(v) for v in li.grid.tile_bbox((x, y, l))]
+                    res = (rect[2] - rect[0]) / tw
+                    for d in (Fraction(1, 8), Fraction(1, 2), 1, 2, 5, 8):
+                        for sd in sides:
+                            b = [rect[0] + sd[0] * d * res, rect[1] + sd[1] * d * res, rect[2] - sd[2] * d * res, rect[3] - sd[3] * d * res]
+                            if not (b[0] < b[2] and b[1] < b[3]):
+                                continue
+                            m = {'bbox': b, 'w': tw, 'h': th, 'fmt': 'png', 'tiled': True, 'kind': 'probe-tiled'}
+                            if not li.exact:
+                                m['bbox_text'] = ','.join(repr(float(v)) for v in b)
+                                m['bbox'] = [Fraction(float(v)) for v in b]
+                            process_map(ctx, col, app, rec, li, m)
+                            ctx.count('probe=tiled-bbox-short-of-tile')
+    except Exception as e:  # noqa
+        ctx.problem('harness', 'fixed probe (tiled requests short of a tile border) could not be run: %r' % (e,))
 
 
 class Collector(object):
